@@ -814,6 +814,11 @@ where
         self.verif_log = Some(Vec::new());
     }
 
+    /// Is recording on?
+    pub fn verif_is_enabled(&self) -> bool {
+        self.verif_log.is_some()
+    }
+
     /// Drain the records made since the last call.
     pub fn verif_take(&mut self) -> Vec<crate::verif::Rec<T>> {
         match self.verif_log.as_mut() {
